@@ -27,10 +27,11 @@ Definition seeded (k : nat) (st : pstate) : Prop := cache_find key (cache st) = 
 
 (* growing steps: with the k-th result as seed the body yields the (k+1)-th, ending strictly later *)
 Hypothesis Hstep : forall k st, k < n -> seeded k st -> pos st = mark ->
-  exists st', body st = (Ok (r (S k)), st') /\ pos st' = m (S k) /\ truthy (r (S k)) = true /\ m k < m (S k).
+  exists st', body st = (Ok (r (S k)), st') /\ pos st' = m (S k) /\ truthy (r (S k)) = true /\
+              (m k < m (S k) \/ truthy (r k) = false).      (* the first result need not consume anything *)
 (* the last step: failure, or no progress *)
 Hypothesis Hstop : forall st, seeded n st -> pos st = mark ->
-  exists v st', body st = (Ok v, st') /\ (truthy v = false \/ pos st' <= m n).
+  exists v st', body st = (Ok v, st') /\ (truthy v = false \/ (truthy (r n) = true /\ pos st' <= m n)).
 
 Theorem grow_is_iteration : forall j k fuel st,
   k + j = n -> j < fuel -> seeded k st ->
@@ -41,12 +42,14 @@ Proof.
     destruct (Hstop (with_pos st mark)) as (v & st' & Hb & Hv); [exact Hs|reflexivity|].
     rewrite Hb. cbn [bind_r]. destruct Hv as [Hv|Hv].
     + rewrite Hv. cbn [negb]. eexists. split; reflexivity.
-    + destruct (negb (truthy v)); [eexists; split; reflexivity|].
-      apply Nat.leb_le in Hv. rewrite Hv. eexists. split; reflexivity.
+    + destruct (negb (truthy v)); [eexists; split; reflexivity|]. destruct Hv as [Ht Hv].
+      apply Nat.leb_le in Hv. rewrite Hv, Ht. eexists. split; reflexivity.
   - destruct fuel as [|f]; [lia|]. cbn [grow].
     destruct (Hstep k (with_pos st mark)) as (st' & Hb & Hp & Ht & Hlt); [lia|exact Hs|reflexivity|].
     rewrite Hb. cbn [bind_r]. rewrite Ht. cbn [negb]. rewrite Hp.
-    assert (E : Nat.leb (m (S k)) (m k) = false) by (apply Nat.leb_gt; exact Hlt). rewrite E.
+    assert (E : truthy (r k) && Nat.leb (m (S k)) (m k) = false).
+    { destruct Hlt as [Hlt|Hlt]; [apply Nat.leb_gt in Hlt; rewrite Hlt; apply andb_false_r|rewrite Hlt; reflexivity]. }
+    rewrite E.
     apply (IH (S k) f); [lia|lia|]. unfold seeded. apply cache_find_set.
 Qed.
 End G.
@@ -59,9 +62,10 @@ Theorem memoize_left_rec_is_iteration :
   let key : ckey := (mark, name, None) in
   r 0 = VNone -> m 0 = mark ->
   (forall k st, k < n -> seeded key r m k st -> pos st = mark ->
-     exists st', body st = (Ok (r (S k)), st') /\ pos st' = m (S k) /\ truthy (r (S k)) = true /\ m k < m (S k)) ->
+     exists st', body st = (Ok (r (S k)), st') /\ pos st' = m (S k) /\ truthy (r (S k)) = true /\
+                 (m k < m (S k) \/ truthy (r k) = false)) ->
   (forall st, seeded key r m n st -> pos st = mark ->
-     exists v st', body st = (Ok v, st') /\ (truthy v = false \/ pos st' <= m n)) ->
+     exists v st', body st = (Ok v, st') /\ (truthy v = false \/ (truthy (r n) = true /\ pos st' <= m n))) ->
   cache_find key (cache st) = None -> n < fuel ->
   exists st', memoize_left_rec toks false fuel name body st = (Ok (r n), st')
               /\ pos st' = (if truthy (r n) then m n else mark)
@@ -84,18 +88,23 @@ Theorem grow_terminates :
   forall (L : nat) key mark body,
   (forall st, fst (body st) <> OutOfFuel) ->
   (forall st v st', body st = (Ok v, st') -> pos st' <= L) ->
+  (forall st v st', body st = (Ok v, st') -> truthy v = true -> pos st <= pos st') ->
   forall d fuel lastresult lastmark st,
-  L - lastmark < d -> d <= fuel ->
+  (truthy lastresult = false -> lastmark <= mark) ->
+  (L - lastmark) + (if truthy lastresult then 0 else 1) < d -> d <= fuel ->
   fst (grow fuel key mark body lastresult lastmark st) <> OutOfFuel.
 Proof.
-  intros L key mark body Hnf Hle. induction d as [|d IH]; intros fuel lastresult lastmark st Hd Hf; [lia|].
+  intros L key mark body Hnf Hle Hmono. induction d as [|d IH]; intros fuel lastresult lastmark st Hfirst Hd Hf; [lia|].
   destruct fuel as [|f]; [lia|]. cbn [grow].
   destruct (body (with_pos st mark)) as [o st1] eqn:Eb.
   destruct o as [v| |]; cbn [bind_r fst].
-  - destruct (negb (truthy v)); [discriminate|].
-    destruct (Nat.leb (pos st1) lastmark) eqn:El; [discriminate|].
-    apply Nat.leb_gt in El. pose proof (Hle _ _ _ Eb) as Hp.
-    apply IH; lia.
+  - destruct (truthy v) eqn:Tv; cbn [negb]; [|discriminate].
+    destruct (truthy lastresult && Nat.leb (pos st1) lastmark) eqn:El; [discriminate|].
+    pose proof (Hle _ _ _ Eb) as Hp. pose proof (Hmono _ _ _ Eb Tv) as Hm. cbn in Hm.
+    apply IH; [congruence| |lia]. rewrite Tv.
+    destruct (truthy lastresult) eqn:Tl.
+    + cbn [andb] in El. apply Nat.leb_gt in El. lia.
+    + specialize (Hfirst eq_refl). lia.
   - discriminate.
   - exfalso. apply (Hnf (with_pos st mark)). rewrite Eb. reflexivity.
 Qed.
